@@ -108,7 +108,7 @@ fn mul_msg(m1: &[i64], m2: &[i64], kp: usize) -> Vec<i64> {
 fn xp_shapes(tier: Tier, ns: &[usize], inplace: bool, reduced: bool) -> Vec<Shape> {
     let mut out = vec![];
     let triples: Vec<(usize, usize, usize)> = if tier.is_thorough() {
-        vec![(12, 12, 12), (8, 8, 8), (17, 17, 17), (12, 17, 12), (17, 12, 17), (10, 12, 8), (17, 10, 12), (8, 17, 12)]
+        vec![(12, 12, 12), (8, 8, 8), (17, 17, 17), (12, 17, 12), (17, 12, 17), (10, 12, 8), (17, 10, 12), (8, 17, 12), (5, 15, 10), (15, 5, 10)]
     } else {
         vec![(12, 12, 12), (12, 17, 12), (10, 12, 8)]
     };
